@@ -109,7 +109,10 @@ def get_facts(config="default", repo=None):
         fcntl.flock(lock, fcntl.LOCK_UN)
     with open(out) as fh:
         facts = json.load(fh)
-    return Facts(facts, repo), info
+    f = Facts(facts, repo)
+    import norm
+    norm.apply(f)
+    return f, info
 
 
 class Facts:
@@ -127,6 +130,7 @@ class Facts:
         self.consts = {c["path"]: c for c in it["consts"]}
         self.unsafe_blocks = it["unsafe_blocks"]
         self._src = {}
+        self.norm = None
 
     def src_line(self, file, line):
         if file not in self._src:
@@ -137,6 +141,18 @@ class Facts:
                 self._src[file] = []
         ls = self._src[file]
         return ls[line - 1].strip() if 0 < line <= len(ls) else ""
+
+    def owners_of(self, sp):
+        """Baseline functions a (generic-stripped) function path belongs to: itself, or -- for a closure or a helper
+        that is not in the baseline table -- the baseline functions it is part of."""
+        if self.norm:
+            o = self.norm["owner"].get(sp)
+            if o:
+                return set(o)
+        return {sp}
+
+    def owned_by(self, sp, allowed):
+        return self.owners_of(sp) <= set(allowed)
 
     def fn_by_suffix(self, suffix):
         """Find function paths whose def-path equals or ends with '::'+suffix (generic args stripped)."""
